@@ -141,6 +141,11 @@ def gen_call(rng, obs):
         extra['bogus_kw'] = 1
         if rng.random() < 0.5:
             extra['strict'] = False
+    elif rng.random() < 0.06:
+        # strict on its own is a keyword like any other: the call is not the argument-less "clear everything"
+        extra['strict'] = rng.random() < 0.5
+        if rng.random() < 0.5:
+            return dict(bare=False, crits=[], reset=None, extra=extra)
     reset = rng.choice(RESETS)
     if not crits and not extra and reset is None:
         return dict(bare=True, crits=[], reset=None, extra={})
@@ -287,6 +292,8 @@ def still_fails(ctx, hist):
 
 
 def shrink(ctx, hist, what):
+    if hist.get('kind') == 'spw':
+        return hist, what
     cur = json.loads(json.dumps(hist))
     cur.pop('failing_call', None)
     # drop calls
@@ -331,11 +338,87 @@ def corpus():
     return out
 
 
+def spw_cases(ctx, n):
+    """Two spectral windows of different channel width and dump sets: switching window clears the time and frequency
+    dimensions, a freqrange given in the same call is judged on the NEW window's channels (wholly inside the range),
+    one call = two calls, repeating changes nothing, other dimensions stay."""
+    import numpy as np
+    from fractions import Fraction
+    from katdal.categorical import CategoricalData
+    from katdal.spectral_window import SpectralWindow
+    bad = []
+    rng = ctx.rng
+    for _ in range(n):
+        obs = stubds.gen_observation(rng)
+        d, _targets = stubds.build(obs)
+        T = obs['T']
+        if T < 2:
+            continue
+        cut = rng.randint(1, T - 1)
+        F1 = rng.randint(2, 12)
+        w0 = Fraction(2000000)
+        w1 = w0 * rng.choice([Fraction(1, 4), Fraction(1, 2), 2, 3])
+        sb1 = rng.choice([1, -1])
+        sw1 = SpectralWindow(centre_freq=stubds.F0 + float(w0) * rng.randint(-3, 3), channel_width=float(w1), num_chans=F1,
+                             sideband=sb1)
+        d.spectral_windows = [d.spectral_windows[0], sw1]
+        d.sensor['Observation/spw_index'] = CategoricalData([0, 1], [0, cut, T])
+        d.select()
+        case = dict(kind='spw', obs=obs, cut=cut, F1=F1, w1=str(w1), sideband1=sb1)
+        what = None
+        # narrow something on every dimension of window 0 first
+        d.select(dumps=slice(0, max(1, cut // 2)), channels=slice(0, max(1, obs['F'] // 2)), pol='h')
+        b_before = stubds.masks_of(d)[2]
+        target = rng.choice([1, 1, 0])
+        for spw in ([1, 0, 1] if target == 1 else [1, 0]):
+            sw = d.spectral_windows[spw]
+            fr = [Fraction(float(x)) for x in sw.channel_freqs]
+            w = Fraction(float(sw.channel_width))
+            a, b = sorted(rng.sample(range(-1, len(fr) + 1), 2))
+            lo = min(fr) + w * a - w / 2 + rng.choice([0, 0, w / 4, -w / 4])
+            hi = min(fr) + w * b + w / 2 + rng.choice([0, 0, w / 4, -w / 4])
+            want_f = ''.join('1' if (f - w / 2 >= lo and f + w / 2 <= hi) else '0' for f in fr)
+            want_t = ''.join('1' if ((i >= cut) == (spw == 1)) else '0' for i in range(T))
+            kw = dict(spw=spw, freqrange=(float(lo), float(hi)))
+            if rng.random() < 0.5:
+                kw = dict(freqrange=kw['freqrange'], spw=spw)
+            try:
+                d.select(**kw)
+                got = stubds.masks_of(d)
+                d.select(**kw)
+                again = stubds.masks_of(d)
+                d.select(spw=spw)
+                d.select(freqrange=kw['freqrange'])
+                two = stubds.masks_of(d)
+            except Exception as e:   # noqa: BLE001
+                what = f'select(spw={spw}, freqrange=...) raised {type(e).__name__}: {str(e)[:100]}'
+                break
+            if got[1] != want_f:
+                what = (f'select(spw={spw}, freqrange=({float(lo)}, {float(hi)})) in one call keeps channels {got[1]}, the '
+                        f'channels of window {spw} wholly inside the range are {want_f}')
+            elif got[0] != want_t:
+                what = f'select(spw={spw}, ...) keeps dumps {got[0]}, the dumps of window {spw} are {want_t}'
+            elif got[2] != b_before:
+                what = f'switching the spectral window changed the correlation-product selection {b_before} -> {got[2]}'
+            elif again != got:
+                what = f'repeating select(spw={spw}, freqrange=...) changed the selection {got} -> {again}'
+            elif two[1] != want_f or two[0] != want_t:
+                what = f'select(spw={spw}) then select(freqrange=...) gives {two}, one call gives {got}'
+            if what:
+                break
+        ctx.tag('spw-switch')
+        ctx.count(('spw', json.dumps(case, sort_keys=True)[:300]), True, sample={'spw': True, 'cut': cut, 'F1': F1})
+        if what:
+            bad.append((case, what))
+    return bad
+
+
 def run(ctx):
     ctx.matchers.update(MATCHERS)
     build = common.build_and_audit('C02', ctx.tier)
     hists = corpus() + [gen_history(ctx.rng) for _ in range(ctx.q(400, 20000))]
     bad = evaluate(ctx, hists)
+    bad += spw_cases(ctx, ctx.q(40, 1500))
     if not bad and not build['build_ok']:
         bad = evaluate(ctx, [gen_history(ctx.rng) for _ in range(4000)])
     for c, v in bad:
@@ -348,6 +431,11 @@ def replay(ctx, rep):
     build = common.build_and_audit('C02', 'quick')
     case = rep['case']
     case.pop('failing_call', None)
+    if case.get('kind') == 'spw':
+        # the two-window cases are drawn from the seed; replay re-runs that stream
+        for cc, v in spw_cases(ctx, 1500):
+            ctx.violation(cc, v)
+        return common.finish(ctx, build, RULE, CHECKER, TRUSTED)
     for cc, v in evaluate(ctx, [case]):
         ctx.violation(cc, v)
     return common.finish(ctx, build, RULE, CHECKER, TRUSTED)
